@@ -2,6 +2,7 @@ package harness
 
 import (
 	"fmt"
+	"strings"
 	"testing"
 
 	"github.com/kelindar/column"
@@ -20,6 +21,22 @@ func (mc *Machine) checkAscend(t *rapid.T, sortName string, col int, filter int,
 	sel := map[uint32]bool{}
 	for off := range mc.M.Rows {
 		sel[off] = true
+	}
+	var chain []qOp
+	if filter == 5 {
+		// an arbitrary filter chain from the C04 grammar, evaluated by the C04 set-algebra model
+		save := mc.Indexes
+		mc.Indexes = []*IndexState{{Spec: *ix}}
+		chain = mc.sanitizeQuery(mc.genQuery(t), KFActive("f14-withunion-single-widens"), KFActive("f25-union-after-missing-name"), "C16")
+		for i, o := range chain {
+			sel = mc.applyModel(sel, o, i == 0)
+		}
+		mc.Indexes = save
+		var parts []string
+		for _, o := range chain {
+			parts = append(parts, o.String())
+		}
+		what += " after " + strings.Join(parts, ".")
 	}
 	var ixSet map[uint32]bool
 	if ix != nil {
@@ -75,6 +92,10 @@ func (mc *Machine) checkAscend(t *rapid.T, sortName string, col int, filter int,
 			txn.WithString(name, func(v string) bool { return len(v) <= 1 })
 		case 4:
 			txn.With(name)
+		case 5:
+			for _, o := range chain {
+				mc.applySUT(txn, o)
+			}
 		}
 		rd := txn.String(name)
 		return txn.Ascend(sortName, func(idx uint32) {
@@ -141,7 +162,7 @@ func TestC16(t *testing.T) {
 			if sortName == "" {
 				return
 			}
-			filter := rapid.IntRange(0, 4).Draw(t, "filter")
+			filter := rapid.IntRange(0, 5).Draw(t, "filter")
 			if mc.checkAscend(t, sortName, sCol, filter, &ixSpec, what) && changedSinceIndex {
 				dupAfterChange = true
 				mc.flag("duplicates-visited-after-overwrite/delete")
